@@ -114,6 +114,10 @@ def _child(fw):
             ep.feed(bytes.fromhex(cmd["data"]))
             env.world.settle()
             return state()
+        if op == "feed_burst":
+            E.feed_burst(ep, [bytes.fromhex(x) for x in cmd["data"]])
+            env.world.settle()
+            return state()
         if op == "send":
             err = None
             try:
